@@ -319,6 +319,9 @@ def model_part(ctx):
                                     constants=abstract_constants(mut="mutable_default")), "neg_mutable_default_inv", expect="violation")
     ctx.model_check("History", dict(spec="Spec", invariants=["RepeatIdempotent"],
                                     constants=abstract_constants(mut="rng_no_reseed")), "neg_rng_no_reseed_inv", expect="violation")
+    if ctx.tier != "thorough":
+        ctx.exhaustive = True
+        return
     # a stale compiled closure is perfectly repeatable: only the comparison with a fresh interpreter exposes it
     r = ctx.model_check("History", dict(spec="Spec", invariants=["RepeatIdempotent", "DefaultIsExplicit"],
                                         constants=abstract_constants(mut="stale_closure")), "stale_closure_is_idempotent")
@@ -346,12 +349,16 @@ def pair_part(ctx, fp0, focus=None):
     if focus:
         ents = [e for e in ents if e["f"] in focus or e["f"] in ("slope", "bump")]
         thr = [e for e in thr if e["f"] in focus or e["f"] == "slope"]
-    by_c = {e["c"]: e for e in ents + thr + joint}
+    sal = c11_pairs.shared_alphabet()
+    if focus:
+        sal = [e for e in sal if e["f"] in focus]
+    by_c = {e["c"]: e for e in ents + thr + joint + sal}
     by_key = {(e["f"], e["p"], e["sig"]): e for e in ents}
-    procs, refproc = c11_pairs.schedules(ents, nproc=ctx.pick(11, 14))
+    procs, refproc = c11_pairs.schedules(ents, nproc=ctx.pick(9, 14))
     ref = {c: "pairs_%02d" % i for c, i in refproc.items()}
     ref.update({e["c"]: "threads_env_1" for e in thr})
     ref.update({e["c"]: "dask_joint" for e in joint})
+    ref.update({e["c"]: "shared_reference" for e in sal})
     jobs, kinds, envs = [], [], []
 
     def add(kind, threads, calls, numba_threads=None):
@@ -360,11 +367,32 @@ def pair_part(ctx, fp0, focus=None):
         envs.append({"NUMBA_NUM_THREADS": str(numba_threads or threads)})
     for i, calls in enumerate(procs):
         add("pairs_%02d" % i, 1, calls)
-    env_threads = (1, 4, 16) if quick else (1, 2, 4, 16)      # 2 threads: in-process via set_num_threads (and thorough)
+    # quick: 1 and 4 threads by environment, 1 / 2 / 4 / 16 in-process via set_num_threads (process started with 16)
+    env_threads = (1, 4) if quick else (1, 2, 4, 16)
     for n in env_threads:
         add("threads_env_%d" % n, n, thr + thr)          # every call twice: bit-identical repeats as well
     if joint:
         add("dask_joint", 4, joint)
+    if sal:
+        # sessions that REUSE objects (one kernel array, one raster, one surface); reference: every call with fresh objects
+        rcalls = [c11_pairs.unshared(e, n) for n, e in enumerate(list(reversed(sal)) + list(reversed(sal)))]
+        add("shared_reference", 1, rcalls)
+        designed = [e for sess in c11_pairs.shared_sessions(sal) for e in sess]
+        sfs = {e["f"] for e in sal}
+        scst = dict(Funcs=sfs, Gens=set(), Unseeded=set(), Params={e["p"] for e in sal} | {"p0"}, Sigs={e["sig"] for e in sal},
+                    Alphabet=tla_alphabet(sal), Threads=1, MAXLEN=12, MUT="none")
+        skey = {(e["f"], e["p"], e["sig"]): e for e in sal}
+        sim = []
+        for k, fp in enumerate(ctx.simulate("History", dict(spec="Spec", constants=scst), "shared_object_sessions",
+                                            num=ctx.pick(4, 24), depth=20)):
+            h = parse_hist_state(open(fp).read())
+            for x in h:
+                if x in skey:
+                    e = dict(skey[x], share=skey[x]["share"] + "#%d" % k)
+                    if e.get("shared_kernel"):
+                        e["shared_kernel"] = dict(e["shared_kernel"], id="K#s%d" % k)
+                    sim.append(e)
+        add("shared_sessions", 1, designed + sim)        # designed sessions first, then the TLC-simulated ones (own objects)
     add("threads_set_num_threads", 16, [dict(e, set_threads=n) for n in (1, 2, 4, 16) for e in thr], numba_threads=16)
     # TLC-simulated histories over the one-parameter alphabet (cross-function interleavings)
     fs = {e["f"] for e in ents}
